@@ -121,8 +121,6 @@ def header_digest():
         for f in files:
             h.update(f.encode())
             h.update(file_digest(f).encode())
-        if os.path.exists(HOOK):
-            h.update(file_digest(HOOK).encode())
         _hdr_digest = h.hexdigest()
     return _hdr_digest
 
@@ -177,6 +175,8 @@ def build_flavour(name, log=sys.stderr):
     """Returns the path of a static archive holding all library objects of this flavour."""
     fl = FLAVOURS[name]
     hd = header_digest()
+    if name == "sched":
+        hd = sha(hd, file_digest(HOOK))
     inc = includes()
     objdir = os.path.join(BUILD, "obj", name)
     os.makedirs(objdir, exist_ok=True)
@@ -247,9 +247,9 @@ def build_portable_encoding(log=sys.stderr):
     return obj
 
 
-def engine_digest():
+def engine_digest(with_sched=False):
     h = hashlib.sha256()
-    for pat in ("engine/*.hpp", "engine/*.h", "engine/detsched/*", "engine/refs/*"):
+    for pat in ("engine/*.hpp", "engine/*.h", "engine/refs/*") + (("engine/detsched/*",) if with_sched else ()):
         for f in sorted(glob.glob(os.path.join(ROOT, pat))):
             if os.path.isfile(f):
                 h.update(f.encode())
@@ -278,7 +278,7 @@ def build_target(t, log=sys.stderr):
     scheds = []
     if t.get("wrap"):
         scheds.append(os.path.join(ROOT, "engine", "detsched", "detsched.cpp"))
-    key = sha(" ".join(flags + ld + libs), file_digest(src), engine_digest(), header_digest(), ar, *extra)
+    key = sha(" ".join(flags + ld + libs), file_digest(src), engine_digest(bool(t.get("wrap"))), header_digest(), ar, *extra)
     bindir = os.path.join(BUILD, "bin")
     os.makedirs(bindir, exist_ok=True)
     out = os.path.join(bindir, "%s-%s" % (t["name"], key))
